@@ -36,7 +36,7 @@ from fractions import Fraction
 
 VERIF = os.path.dirname(os.path.dirname(os.path.abspath(__file__)))
 LEAN = os.path.join(VERIF, "lean")
-REPO = "/repo"
+REPO = os.environ.get("VERIF_REPO", "/repo")  # VERIF_REPO: development only (mutation self-tests in a scratch worktree)
 ALLOWED_AXIOMS = {"propext", "Classical.choice", "Quot.sound"}
 BASE_TRUSTED = [
     "Lean 4.33.0 kernel; axioms allowed in property theorems: propext, Classical.choice, Quot.sound (audited every run with #print axioms)",
@@ -123,12 +123,14 @@ def assert_repo():
 
 
 # ----------------------------------------------------------------------------- Lean side
-def lean_grep():
-    """Forbidden constructs in the Lean sources (comments stripped line-wise)."""
+def lean_grep(dirs):
+    """Forbidden constructs in the Lean sources of the given sub-directories of lean/PorepyVerif
+    (the property's own directory, Common, and whatever it imports; comments stripped line-wise)."""
     hits = []
-    for root, _, files in os.walk(LEAN):
-        if ".lake" in root:
-            continue
+    walk = []
+    for d in dirs:
+        walk += list(os.walk(os.path.join(LEAN, "PorepyVerif", d)))
+    for root, _, files in walk:
         for f in files:
             if not f.endswith(".lean"):
                 continue
@@ -202,11 +204,12 @@ def run_driver(driver, cases_ops, timeout=3600):
 
 # ----------------------------------------------------------------------------- known findings
 def load_findings(pid):
-    p = os.path.join(VERIF, "known_findings.json")
-    if not os.path.exists(p):
-        return []
-    data = json.load(open(p))
-    return [f for f in data.get("findings", []) if f.get("property") == pid and f.get("status") == "open"]
+    out = []
+    for p in (os.path.join(VERIF, "known_findings.json"), os.path.join(VERIF, "known_findings.d", f"{pid}.json")):
+        if os.path.exists(p):
+            data = json.load(open(p))
+            out += [f for f in data.get("findings", []) if f.get("property") == pid and f.get("status") == "open"]
+    return out
 
 
 # ----------------------------------------------------------------------------- evidence
@@ -314,7 +317,7 @@ def run(mod, tier="quick", seed=0, replay=None):
                 discharged += 1
         if discharged == len(mod.THEOREMS):
             discharged += (translator_info or {}).get("obligations", 0)
-    hits = lean_grep()
+    hits = lean_grep([pid, "Common"] + list(getattr(mod, "LEAN_DIRS", [])))
     if hits:
         broken.append({"kind": "proof", "what": "forbidden construct in lean sources", "log": "\n".join(hits[:20])})
         discharged = 0
